@@ -14,6 +14,8 @@ import PgProofs.EvoAlignU
 import PgProofs.EvoPure
 import PgProofs.EvoPermP
 import PgProofs.EvoOrderPerm
+import PgProofs.EvoPmxPerm
+import PgProofs.EvoCyclePerm
 import PgProofs.EvoLaws
 import PgModel.EvoSched
 import PgProofs.EvoNumP
@@ -223,6 +225,24 @@ theorem C14_order_children_are_permutations (vx vy : List Nat) (hn : vx.Nodup) (
   refine ⟨orderChild_perm vx vy hn hp start stop h1 h2, ?_⟩
   have := orderChild_perm vy vx (hp.nodup_iff.mpr hn) hp.symm start stop h1 (by rw [hp.length_eq]; exact h2)
   exact this.trans hp
+
+/-- Partially mapped crossover proper: for two arrangements of the same distinct items, any cut points
+`start ≤ stop ≤ size` (any draw), both children — whenever the re-mapping loop returns them — are
+arrangements of those items: every value PMX places was checked against the values already assigned. -/
+theorem C14_pmx_children_are_permutations (vx vy : List Nat) (hn : vx.Nodup) (hp : vy.Perm vx)
+    (start stop : Nat) (h1 : start ≤ stop) (h2 : stop ≤ vx.length) (c0 c1 : List Nat)
+    (h0 : pmxChild vx vy start stop = some c0) (h1' : pmxChild vy vx start stop = some c1) :
+    c0.Perm vx ∧ c1.Perm vx := by
+  refine ⟨pmxChild_perm vx vy hn hp start stop h1 h2 c0 h0, ?_⟩
+  have := pmxChild_perm vy vx (hp.nodup_iff.mpr hn) hp.symm start stop h1 (by rw [hp.length_eq]; exact h2) c1 h1'
+  exact this.trans hp
+
+/-- Cycle crossover proper: for two arrangements of the same distinct items and every sequence of coin
+draws, both children are arrangements of those items (the assignment of sides is closed under the cycle
+map, and cycles that are assigned never overlap). -/
+theorem C14_cycle_children_are_permutations (vx vy : List Nat) (hn : vx.Nodup) (hp : vy.Perm vx)
+    (st : St) (c0 c1 : List Nat) (st' : St) (h : permuteCycle vx vy st = .ok ((c0, c1), st')) :
+    c0.Perm vx ∧ c1.Perm vx := permuteCycle_perm hn hp st c0 c1 st' h
 
 /-! ## Numeric recombinators `Average` / `WeightedAverage` (exact rationals) -/
 
